@@ -129,7 +129,8 @@ Ltac dlist l :=
   repeat match goal with H : context [match l with _ => _ end] |- _ => revert H end;
   destruct l as [|?d ?r]; cbn beta iota; intros; try discriminate.
 
-Ltac eq_cases x t := let Hne := fresh "Hne" in destruct (Nat.eq_dec x t) as [->|Hne];
+Ltac eq_cases x t := let Hne := fresh "Hne" in cbn [tstarts tends cnt];
+  destruct (Nat.eq_dec x t) as [->|Hne];
   [rewrite ?upd_same in *; rewrite ?Nat.eqb_refl
   | rewrite ?upd_other in * by exact Hne; rewrite ?(proj2 (Nat.eqb_neq x t) Hne); cbn [Nat.add]].
 
@@ -276,7 +277,7 @@ Proof.
     pose proof (cnt_remove1_same t (building s) ltac:(assumption)) as Hr.
     fields_of_log_fail g (set_trace (set_finishing (set_building s (remove1 t (building s))) (t :: finishing s)) (OEnd t RFailed :: trace s)) false.
     unfold J, shape, q in *; cbn in *.
-    repeat match goal with H : _ (log_fail _ _ _) = _ |- _ => rewrite H; clear H end.
+    repeat match goal with H : _ (log_fail _ _ _) = _ |- _ => rewrite H; clear H end. cbn.
     eq_cases x t; cnt_other; try exact HJx.
     destruct HJx as (HA & HB & HS). rewrite ?Nat.eqb_refl.
     destruct (ts s t) eqn:Ets; cbn in *; dand; try (exfalso; lia); try tauto.
